@@ -4,6 +4,7 @@
 //!               [--progress FILE] --out FILE [--cap SECONDS]
 //!   rbpf-mc replay <FILE.json>
 
+mod apieng;
 mod asmref;
 mod byteseng;
 mod common;
@@ -30,6 +31,7 @@ fn run_engine(prop: &str, s: &mut Sink) {
         "C02" => memeng::run(s, false),
         "C11" => memeng::run(s, true),
         "C09" => ctxeng::run(s),
+        "C10" => apieng::run(s),
         "C03" => isaeng::run(s, vm::Eng::Jit),
         "C04" => isaeng::run(s, vm::Eng::Cl),
         "C05" => byteseng::run(s, byteseng::Mode::C05),
@@ -54,6 +56,7 @@ pub fn replay_value(rp: &Value) -> Vec<String> {
         "isa-l4" => isaeng::replay_l4(rp),
         "mem" => memeng::replay(rp),
         "ctx" => ctxeng::replay(rp),
+        "api" => apieng::replay(rp),
         "verify" => byteseng::replay_verify(rp),
         "interp-total" => byteseng::replay_interp_total(rp),
         "compile-total" => byteseng::replay_compile_total(rp),
